@@ -294,8 +294,9 @@ class _SetSub(set):
     pass
 
 
-def _name_collision(base, name):
-    return type(name, (base,), {})
+def _name_collision(base, name, module=None):
+    # module="builtins": what a class statement executed in a namespace without __name__ (a bare exec) produces
+    return type(name, (base,), {} if module is None else {"__module__": module})
 
 
 UNSUPPORTED = [
@@ -318,6 +319,8 @@ UNSUPPORTED = [
     ("name-colliding-int-subclass", lambda rng: _name_collision(int, "int")(7)),
     ("name-colliding-list-subclass", lambda rng: _name_collision(list, "list")([1, 2])),
     ("name-colliding-str-subclass", lambda rng: _name_collision(str, "str")("s")),
+    ("name-colliding-int-subclass-in-builtins-module", lambda rng: _name_collision(int, "int", "builtins")(7)),
+    ("name-colliding-dict-subclass-in-builtins-module", lambda rng: _name_collision(dict, "dict", "builtins")(a=1)),
 ]
 
 
